@@ -84,12 +84,12 @@ func init() {
 			act := activeKnown["C11"]
 			big := false
 			for i, a := range m.Log {
-				if i < len(m.Outs) && m.Outs[i].OK && a.Amount != "" && amt(a.Amount).BitLen() > 50 {
+				if i < len(m.Outs) && m.Outs[i].OK && a.Amount != "" && amt(a.Amount).BitLen() > 40 {
 					big = true
 				}
 				if i < len(m.Outs) && m.Outs[i].OK {
 					for _, x := range a.Amounts {
-						if amt(x).BitLen() > 50 {
+						if amt(x).BitLen() > 40 {
 							big = true
 						}
 					}
@@ -205,7 +205,7 @@ func rawCallHasBigWord(dataHex string) bool {
 	}
 	for off := 4; off+32 <= len(b); off += 32 {
 		w := new(big.Int).SetBytes(b[off : off+32])
-		if w.BitLen() > 50 {
+		if w.BitLen() > 40 {
 			return true
 		}
 	}
